@@ -279,7 +279,7 @@ def run(chk):
     chk.notes["constructor_cases"] = n
     chk.notes["catalogue_sizes"] = {k: len(v) for k, v in catalog.items()}
     # every signal produced by library operations satisfies the contract
-    c01.run_pipeline(chk, want=("C16",), quick_cases=700, full_cases=30000, nconc=(2, 6))
+    c01.run_pipeline(chk, want=("C16",), mc=None, quick_cases=700, full_cases=30000, nconc=(2, 6))
     chk.assumptions.append("constructor arguments are drawn from the catalogue of kinds in spec/Contract.tla; "
                            "kinds marked 'either' (inf rate, nan centre frequency, ISO string start, list-of-pairs meta) "
                            "are not fixed by the property")
